@@ -10,11 +10,19 @@ lives in the binary crate), timeout (s).
 
 KANI = []
 VERUS = []
+NATIVE = []
 
 
 def K(name, file, fn, props, obligation, complete=True, bound='', replay='shim', bin=False, timeout=900):
     KANI.append(dict(name=name, file=file, fn=fn, props=props, obligation=obligation, complete=complete,
                      bound=bound, replay=replay, bin=bin, timeout=timeout))
+
+
+
+
+def N(name, file, fn, props, obligation, bound, bin=False):
+    """native bounded stand-in (never counted as proved)"""
+    NATIVE.append(dict(name=name, file=file, fn=fn, props=props, obligation=obligation, bound=bound, bin=bin))
 
 
 Q, T = 'quick', 'thorough'
@@ -51,16 +59,73 @@ K('xc_u256_lz_bytes', RLP, 'ethnum::U256::{leading_zeros,to_be_bytes}', {'C07': 
   'cross-check of the interface contracts assumed by the Verus unit: U256::leading_zeros == 256 - bitlen, to_be_bytes == be_fix(n, 32), for all U256')
 
 # ---------------------------------------------------------------------------
+# C14 — HD path text
+PATHF = 'src/hdk/path.rs'
+for _l in range(0, 13):
+    K(f'c14_component_text_len{_l}', PATHF, 'Component::from_str', {'C14': Q, 'C17': Q},
+      f"Component::from_str(s) for ALL ASCII strings of length {_l}: Ok iff s = [+]digits['] with value < 2^31, and then (hardened, value) are the ones written; Err otherwise (empty, negative, fractional, non-numeric, >= 2^31); never panics",
+      complete=True, bound=f'all ASCII strings of length {_l} (lengths 0..12 together cover the canonical text of every u32 with and without apostrophe)')
+K('c14_component_display', PATHF, 'Component::fmt', {'C14': Q},
+  'Component Display prints the canonical decimal digits of the value and a trailing apostrophe iff hardened, for all 2^32 values x both kinds (std u32 Display as callee contract)',
+  complete=True)
+for _d in range(1, 11):
+    K(f'xc_u32_display_d{_d}', PATHF, '<u32 as Display>::fmt', {'C14': Q if _d <= 4 else T},
+      f'cross-check of the assumed std contract: u32 Display prints exactly the canonical decimal digits, all values with {_d} digits',
+      complete=True, timeout=900 if _d <= 6 else 3600)
+for _n in ('empty', 'm', 'no_root', 'slash_root', 'upper_root', 'empty_mid', 'double_root', 'negative', 'fraction', 'limit', 'one', 'bip44'):
+    K(f'c14_path_ex_{_n}', PATHF, 'Path::from_str', {'C14': Q if _n in ('no_root', 'empty_mid', 'limit', 'bip44', 'negative') else T},
+      'Path::from_str on one concrete text: missing root / empty component / bad component rejected; well-formed text yields the components in order',
+      complete=False, bound='one concrete path text (symbolic text makes str::split intractable for CBMC)')
+K('c14_path_display', PATHF, 'Path::fmt', {'C14': Q}, 'Path Display is "m" followed by "/component" for each component',
+  complete=False, bound='2 components with single-digit values')
+N('nb_for_index', PATHF, 'Path::for_index', {'C14': Q, 'C17': Q, 'C16': Q},
+  'for_index(i) == m/44\'/60\'/0\'/0/i for i < 2^31, an error (no panic) for i >= 2^31',
+  'native execution: every i in 0..=70000, 4096 values around each of 2^31, 2^32, 2^63, and the top 2048 usize values')
+N('nb_path_text_enumerated', PATHF, 'Path::from_str, Path::fmt', {'C14': Q, 'C17': Q},
+  'Path::from_str(s) agrees with the reference grammar m(/[+]d+\'?)+ with values < 2^31; printing is canonical and parses back to the same components',
+  "native execution: all 3.3e6 strings of length <= 6 over {m,M,/,',0,1,9,+,-,.,x,space} plus 26 boundary texts")
+
+# ---------------------------------------------------------------------------
+# C11 / C15 — src/account/signature.rs
+SIG = 'src/account/signature.rs'
+K('c11_v_exact_in_range', SIG, 'Signature::v', {'C11': Q, 'C17': Q, 'C06': Q},
+  'v(Some(c)) == 35 + 2c + yParity exactly over the naturals, no overflow check fires, for all c <= 2^255 - 19 (every c for which the sum fits 256 bits) and both parities')
+K('c11_v_none', SIG, 'Signature::v', {'C11': Q, 'C06': Q}, 'v(None) == 27 + yParity')
+K('c15_from_str_modular_130', SIG, 'Signature::from_str', {'C15': Q, 'C17': Q},
+  'from_str on all 130-character ASCII strings with hex::decode_to_slice as callee contract: the payload is handed to the decoder unchanged; Ok iff decode Ok, v in {27,28}, 0<r<n, 0<s<n; (r,s,yParity) are the decoded values; never panics',
+  timeout=1500)
+K('c15_from_str_modular_132', SIG, 'Signature::from_str', {'C15': Q, 'C17': Q},
+  'same contract on all 132-character ASCII strings: an optional leading 0x is removed, nothing else', timeout=1500)
+K('c15_from_str_other_lengths', SIG, 'Signature::from_str', {'C15': Q, 'C17': Q},
+  'from_str rejects every ASCII string of any other length 0..140 (real hex decoder); never panics', timeout=1500)
+K('c15_hex_contract_n65', SIG, 'hex::decode_to_slice', {'C15': Q},
+  'the callee contract assumed by the modular harnesses holds for the real hex crate on all 130-byte inputs: Ok iff all hex digits (either case); bytes are the digit values', timeout=1500)
+for _n in ('n2', 'n2_short', 'n2_long'):
+    K(f'c15_hex_contract_{_n}', SIG, 'hex::decode_to_slice', {'C15': Q}, 'hex::decode_to_slice contract at |out| = 2 (exact, short and long input)')
+K('c15_display_exact', SIG, 'Signature::fmt', {'C15': Q},
+  'Display prints 0x, the 64 lower-case hex digits of r, the 64 of s and 1b/1c, for all valid (r, s, parity) (ethnum LowerHex as callee contract)', timeout=1500)
+K('c15_accessors', SIG, 'Signature::{r,s,y_parity}', {'C15': Q, 'C06': Q, 'C11': Q}, 'r(), s(), y_parity() return the stored scalars / parity for all valid signatures')
+K('c15_from_str_len130', SIG, 'Signature::from_str', {'C15': T, 'C17': T},
+  'monolithic: from_str on all 130-character ASCII strings with the real hex decoder: Ok iff 130 hex digits, v in {27,28}, 0<r<n, 0<s<n; values equal; never panics', timeout=2400)
+K('c15_from_str_len132', SIG, 'Signature::from_str', {'C15': T, 'C17': T},
+  'monolithic: from_str on all 132-character ASCII strings: Ok iff 0x + valid payload', timeout=2400)
+
+# ---------------------------------------------------------------------------
 NOT_APPLICABLE = {
     'C02': 'the property is the definition of PBKDF2-HMAC-SHA512 and NFKD in the pbkdf2/hmac/sha2/unicode-normalization dependencies; no contract within reach of Verus (cannot link the crates) or Kani (2048x2 SHA-512 compressions on symbolic input; trait-method call sites cannot be stubbed) can express or decide it',
     'C03': 'derive_slice interleaves its glue with HMAC-SHA512, SEC1 compression and secp256k1 scalar addition from hmac/k256 inside one loop body; those trait-method calls cannot be cut out by Kani stubs nor seen by Verus, and symbolic HMAC/EC arithmetic has no tractable encoding or independent oracle',
     'C05': 'try_sign is a single call into k256 RFC 6979 signing; validity, recoverability, low-s and RFC 6979 equality are theorems about secp256k1/HMAC-DRBG in the dependency that neither installed verifier can express',
 }
 _PENDING = 'check not built yet in this session (see DESIGN.md for the planned contracts)'
-for _p in ('C01', 'C04', 'C06', 'C08', 'C09', 'C10', 'C11', 'C12', 'C13', 'C14', 'C15', 'C16', 'C17', 'C18', 'C19', 'C20'):
+for _p in ('C01', 'C04', 'C06', 'C08', 'C09', 'C10', 'C11', 'C12', 'C13', 'C15', 'C16', 'C17', 'C18', 'C19', 'C20'):
     NOT_APPLICABLE.setdefault(_p, _PENDING)
 
 PROPS = {
+    'C14': dict(level='proof',
+                technique='Kani/CBMC contracts on the real Component::from_str / Display over all strings up to 12 bytes (complete for every u32 value); native bounded stand-ins for Path::from_str and Path::for_index',
+                claim='Component::from_str is proved for every ASCII string of length 0..12 (hence for the canonical text of all 2^32 values, hardened or not): accepted iff decimal index below 2^31, value and hardened marker preserved, everything else rejected without panic; Component Display proved canonical for all values. Path::from_str / Display / for_index are outside CBMC\'s reach (str::split and format! explode) and are covered by bounded stand-ins only: 12 concrete shapes under Kani and native enumeration of 3.3e6 short strings / 80k indices.',
+                note='Proved part: Component parser and printer. Bounded (not proved): Path::from_str splitting, Path Display, Path::for_index (native enumeration with stated bounds). Assumed in the quick tier: std u32 decimal Display for 5-10 digit values (1-4 digits cross-checked in quick, 5-10 in thorough), std memchr specification (stubbed by its naive definition in the path examples). "Derives the same key" depends on C03 (not applicable). Non-ASCII component text is covered by native examples only.',
+                native_timeout=1500),
     'C07': dict(level='proof',
                 technique='Verus proof of extracted rlp::{len,bytes,uint,list} against the Yellow-Paper spec + Kani/CBMC pairings on the real functions',
                 claim='rlp::{len,bytes,uint,list} produce exactly the Yellow-Paper encoding for inputs of every length and value (Verus, unbounded); the canonical-form clauses (minimal length prefix, no wrapped single byte < 0x80, no leading zero in integers, 0 = empty string) are part of that spec; len and uint are additionally proved on the real code for all 2^64 x 2 resp. 2^256 inputs by Kani. rlp::iter and AccessList::rlp_encode are bounded stand-ins.',
